@@ -13,6 +13,7 @@
 #include "stir/recon_buildblock/ProjectorByBinPairUsingProjMatrixByBin.h"
 #include "stir/recon_buildblock/PoissonLogLikelihoodWithLinearModelForMeanAndProjData.h"
 #include "stir/recon_buildblock/QuadraticPrior.h"
+#include "stir/recon_buildblock/BinNormalisationFromProjData.h"
 #include "stir/IO/InterfileOutputFileFormat.h"
 #include "stir/IO/read_from_file.h"
 #include <cmath>
@@ -34,7 +35,8 @@ struct Problem
   shared_ptr<ProjDataInfo> pdi;
   shared_ptr<ExamInfo> exam;
   shared_ptr<VoxelsOnCartesianGrid<float>> start_image; // positive start image
-  shared_ptr<ProjDataInMemory> y, additive;
+  shared_ptr<ProjDataInMemory> y, additive, normfac; // normfac: normalisation factors = 1 / bin efficiency (null: trivial)
+  std::vector<double> nv;                             // bin efficiency per bin (1 without normalisation)
   int num_subsets = 1;
   bool sym = true;
   // explicit matrix
@@ -88,6 +90,7 @@ gen_problem_cfg(sim::Plan& p, sim::Rng& r)
       p.cfg["ndet"] = 8 * r.range(2, 3);
       p.cfg["xy"] = r.chance(0.5) ? 3 : 5;
     }
+  p.cfg["norm"] = r.chance(0.4); // bin efficiencies through BinNormalisationFromProjData
 }
 
 inline Problem
@@ -148,13 +151,26 @@ make_problem(const sim::Plan& p)
   const bool use_add = p.c("additive", 0) != 0;
   if (use_add)
     pr.additive.reset(new ProjDataInMemory(pr.exam, pr.pdi));
+  const bool use_norm = p.c("norm", 0) != 0;
+  if (use_norm)
+    pr.normfac.reset(new ProjDataInMemory(pr.exam, pr.pdi));
   for (size_t b = 0; b < pr.bins.size(); ++b)
     {
       double f = 0;
       for (auto& e : pr.P[b])
         f += e.second * phantom[(size_t)e.first];
       const double a = use_add ? 0.25 + 0.5 * r.unit() : 0.;
-      const double yb = std::floor((f + a) * (0.6 + 0.8 * r.unit()) + 0.5);
+      double n = 1.;
+      if (use_norm)
+        {
+          const float nf = (float)(0.5 + 1.5 * r.unit());
+          Bin nb = pr.bins[b];
+          nb.set_bin_value(nf);
+          pr.normfac->set_bin_value(nb);
+          n = 1. / (double)nf;
+        }
+      pr.nv.push_back(n);
+      const double yb = std::floor(n * (f + a) * (0.6 + 0.8 * r.unit()) + 0.5);
       pr.yv.push_back(yb);
       pr.av.push_back(a);
       Bin bb = pr.bins[b];
@@ -180,6 +196,8 @@ make_objective(const Problem& pr, const std::string& sens_dir, bool reuse_sensit
   obj->set_projector_pair_sptr(shared_ptr<ProjectorByBinPair>(new ProjectorByBinPairUsingProjMatrixByBin(make_matrix(pr.sym))));
   if (pr.additive)
     obj->set_additive_proj_data_sptr(pr.additive);
+  if (pr.normfac)
+    obj->set_normalisation_sptr(shared_ptr<BinNormalisation>(new BinNormalisationFromProjData(pr.normfac)));
   obj->set_use_subset_sensitivities(subset_sens);
   if (!sens_dir.empty())
     {
